@@ -1,8 +1,9 @@
 (* Extraction of the keyspace model (C01 and the properties building on it). ExtrOcamlBasic only. *)
 From Coq Require Import Extraction ExtrOcamlBasic.
-From T38 Require Import Base.Bytes Base.SMap Model.Field Model.Object Model.Spec Model.Glob Model.Keyspace.
+From T38 Require Import Base.Bytes Base.SMap Model.Field Model.Object Model.Spec Model.Glob Model.Keyspace Model.FieldBin.
 Extraction Language OCaml.
 Extraction "model.ml" Z.add Z.of_N Nat.add
   exec sexec_cmd abs vis fl_set fl_get fl_get_old fl_scan fl_make
   make_head head_id head_expires put_varint varint is_json_number write_err lower
-  str_equals_ci value_same is_zero.
+  str_equals_ci value_same is_zero
+  bl_set bl_scan bl_len bl_get weight ptob lenN put_uv.
